@@ -17,7 +17,7 @@ from .. import api
 from ..harness import *
 from ..absint import RESULT, OPTION
 
-LEVEL = "other"
+LEVEL = "proof"
 
 
 def module_of(key):
